@@ -12,7 +12,7 @@
      - `Rng::gen::<bool>()` = `(next_u32() as i32) < 0`, i.e. the top bit of one word.
    Running out of scripted words is [OutOfFuel] (the harness RNG reports the same condition as
    result `err`); no other [OutOfFuel] can arise (RandProofs: fuel_irrelevant lemmas). *)
-From BigNum Require Import Base AddSub Sign.
+From BigNum Require Import Base SrcLit AddSub Sign.
 Open Scope Z_scope.
 
 Definition rng := list Z.
@@ -104,8 +104,6 @@ Definition gen_biguint_below (bound : list Z) (s : rng) : outcome (list Z * rng)
   do _ <- assert_ (negb (uis_zero bound)) EmptyRange;             (* assert!(!bound.is_zero()) *)
   below_loop (S (length s)) (rand_bits bound) bound s.
 
-Definition is_lt (c : comparison) : bool := match c with Lt => true | _ => false end.
-Definition is_le (c : comparison) : bool := match c with Gt => false | _ => true end.
 
 (** `gen_biguint_range(lbound, ubound)` *)
 Definition gen_biguint_range (p : addsub_params) (lo hi : list Z) (s : rng) : outcome (list Z * rng) :=
@@ -120,21 +118,21 @@ Definition gen_biguint_range (p : addsub_params) (lo hi : list Z) (s : rng) : ou
     Ret (v, r).
 
 (** `gen_bigint_range(lbound, ubound)` *)
-Definition gen_bigint_range (p : addsub_params) (lo hi : bigint) (s : rng) : outcome (bigint * rng) :=
-  do c <- icmp lo hi;
+Definition gen_bigint_range (sp : sign_params) (p : addsub_params) (lo hi : bigint) (s : rng) : outcome (bigint * rng) :=
+  do c <- icmp sp lo hi;
   do _ <- assert_ (is_lt c) EmptyRange;
-  if iis_zero lo then
+  if iis_zero sp lo then
     do x <- gen_biguint_below (mag hi) s;
-    let '(n, r) := x in Ret (ifrom_u n, r)
-  else if iis_zero hi then
+    let '(n, r) := x in Ret (ifrom_u sp n, r)
+  else if iis_zero sp hi then
     do x <- gen_biguint_below (mag lo) s;
     let '(n, r) := x in
-    do v <- iadd p lo (ifrom_u n); Ret (v, r)
+    do v <- iadd p lo (ifrom_u sp n); Ret (v, r)
   else
     do delta <- isub p hi lo;
     do x <- gen_biguint_below (mag delta) s;
     let '(n, r) := x in
-    do v <- iadd p lo (ifrom_u n); Ret (v, r).
+    do v <- iadd p lo (ifrom_u sp n); Ret (v, r).
 
 (** `UniformBigUint` *)
 Record uniform_u := mk_uu { uu_base : list Z; uu_len : list Z }.
@@ -157,20 +155,20 @@ Definition uu_sample_single := gen_biguint_range.
 
 (** `UniformBigInt` *)
 Record uniform_i := mk_ui { ui_base : bigint; ui_len : list Z }.
-Definition ui_new (p : addsub_params) (lo hi : bigint) : outcome uniform_i :=
-  do c <- icmp lo hi;
+Definition ui_new (sp : sign_params) (p : addsub_params) (lo hi : bigint) : outcome uniform_i :=
+  do c <- icmp sp lo hi;
   do _ <- assert_ (is_lt c) EmptyRange;
   do d <- isub p hi lo;
   Ret (mk_ui lo (snd (into_parts d))).
-Definition ui_new_inclusive (p : addsub_params) (lo hi : bigint) : outcome uniform_i :=
-  do c <- icmp lo hi;
+Definition ui_new_inclusive (sp : sign_params) (p : addsub_params) (lo hi : bigint) : outcome uniform_i :=
+  do c <- icmp sp lo hi;
   do _ <- assert_ (is_le c) EmptyRange;
   do h1 <- iadd p hi ione;                                         (* high + 1u32 *)
-  ui_new p lo h1.
-Definition ui_sample (p : addsub_params) (u : uniform_i) (s : rng) : outcome (bigint * rng) :=
+  ui_new sp p lo h1.
+Definition ui_sample (sp : sign_params) (p : addsub_params) (u : uniform_i) (s : rng) : outcome (bigint * rng) :=
   do x <- gen_biguint_below (ui_len u) s;
   let '(n, r) := x in
-  do v <- iadd p (ui_base u) (ifrom_u n);
+  do v <- iadd p (ui_base u) (ifrom_u sp n);
   Ret (v, r).
 Definition ui_sample_single := gen_bigint_range.
 
